@@ -180,6 +180,26 @@ func genC06(c *Ctx) {
 			sh4 := append(append([]crypto.Signature{}, sh...), crypto.Signature(s.shares[s.t+1][:20]))
 			i4 := append(append([]int{}, idx...), s.t+1)
 			c.Case("reconstruct-extra-malformed", recLine(s.n, s.t, sh4, i4), recAns(s.n, s.t, sh4, i4))
+			// more than t+1 entries with a repeated signer among the extra ones: the extra entry repeats an earlier signer
+			// (first, last of the t+1), or two extra entries repeat each other; out-of-range signer among the extras
+			ext := func(class string, extra ...int) {
+				shx, ix := append([]crypto.Signature{}, sh...), append([]int{}, idx...)
+				for _, e := range extra {
+					k := e
+					if k < 0 || k >= s.n {
+						k = 0
+					}
+					shx, ix = append(shx, s.shares[k]), append(ix, e)
+				}
+				c.Case(class, recLine(s.n, s.t, shx, ix), recAns(s.n, s.t, shx, ix))
+			}
+			ext("reconstruct-extra-duplicate", idx[0])
+			ext("reconstruct-extra-duplicate", idx[s.t])
+			ext("reconstruct-extra-duplicate", s.t+1, idx[1%len(idx)])
+			ext("reconstruct-extra-duplicate", s.t+1, s.t+1)
+			ext("reconstruct-extra-valid", s.t+1)
+			ext("reconstruct-extra-range", s.n)
+			ext("reconstruct-extra-range", s.t+1, -1)
 		}
 	}
 	// ---- large indices: batches of 8 indices per limb, sign tracking
